@@ -372,4 +372,125 @@ theorem pathCase_eq_any (l : List Bytes) (p e : Bytes) :
       rw [provTail_fst_any (fun _ => true) ps hc, List.any_map]
       rfl
 
+theorem any_congr_mem {α : Type} : ∀ {l : List α} {f g : α → Bool}, (∀ x, x ∈ l → f x = g x) → l.any f = l.any g
+  | [], _, _, _ => rfl
+  | x :: xs, f, g, h => by
+    simp only [List.any_cons]
+    rw [h x List.mem_cons_self, any_congr_mem (fun y hy => h y (List.mem_cons_of_mem _ hy))]
+
+theorem hasPrefix_lower : ∀ (s sub : Bytes), (∀ c, c ∈ sub → NonLetter c) → hasPrefix (lower s) sub = hasPrefix s sub
+  | _, [], _ => by simp [hasPrefix]
+  | [], _ :: _, _ => by simp [hasPrefix, lower]
+  | x :: xs, c :: cs, h => by
+    have ih := hasPrefix_lower xs cs (fun d hd => h d (List.mem_cons_of_mem _ hd))
+    have hc := h c List.mem_cons_self
+    have := lowerByte_eq_iff x c hc.1 hc.2
+    unfold lower at *
+    simp only [List.map_cons, hasPrefix, ih]
+    congr 1
+    rw [Bool.eq_iff_iff]
+    simp only [beq_iff_eq]
+    exact this
+
+theorem containsSub_lower : ∀ (s sub : Bytes), (∀ c, c ∈ sub → NonLetter c) → containsSub (lower s) sub = containsSub s sub
+  | [], _, _ => rfl
+  | x :: xs, sub, h => by
+    have ih := containsSub_lower xs sub h
+    have hp := hasPrefix_lower (x :: xs) sub h
+    unfold lower at *
+    simp only [List.map_cons, containsSub] at *
+    rw [ih, hp]
+
+/-! ### the mode that keeps empty segments (`CleanPath(p, false)`) -/
+
+/-- the `p[i-1] == '/'` of the next iteration -/
+def lastSlash (s : Bool) (a : Bytes) : Bool :=
+  match a.getLast? with
+  | none => s
+  | some c => c == cSlash
+
+theorem lastSlash_cons (s : Bool) (x : UInt8) (xs : Bytes) : lastSlash s (x :: xs) = lastSlash (x == cSlash) xs := by
+  unfold lastSlash
+  cases xs with
+  | nil => rfl
+  | cons y ys =>
+    rw [List.getLast?_cons_cons]
+    cases h : (y :: ys).getLast? with
+    | none => simp at h
+    | some c => rfl
+
+theorem expandSlashes_append : ∀ (a : Bytes) (s : Bool) (b : Bytes),
+    expandSlashes s (a ++ b) = expandSlashes s a ++ expandSlashes (lastSlash s a) b
+  | [], s, b => rfl
+  | x :: xs, s, b => by
+    rw [lastSlash_cons]
+    simp only [List.cons_append, expandSlashes]
+    split
+    · rename_i h
+      have : (x == cSlash) = true := by simp [h.1]
+      rw [this, expandSlashes_append xs true b]
+      rfl
+    · rw [expandSlashes_append xs (x == cSlash) b]
+      rfl
+
+theorem expandSlashes_no_slash : ∀ (x : Bytes) (s : Bool), x.contains cSlash = false → expandSlashes s x = x
+  | [], _, _ => rfl
+  | c :: cs, s, h => by
+    simp only [List.contains_cons, Bool.or_eq_false_iff, beq_eq_false_iff_ne, ne_eq] at h
+    have hc : ¬ c = cSlash := fun e => h.1 e.symm
+    simp only [expandSlashes]
+    rw [if_neg (fun e => hc e.1), expandSlashes_no_slash cs _ h.2]
+
+theorem lastSlash_no_slash (x : Bytes) (s : Bool) (hx : x ≠ []) (h : x.contains cSlash = false) :
+    lastSlash s x = false := by
+  unfold lastSlash
+  cases hl : x.getLast? with
+  | none => simp at hl; exact absurd hl hx
+  | some c =>
+    simp only [beq_eq_false_iff_ne, ne_eq]
+    intro e
+    subst e
+    have := List.mem_of_getLast? hl
+    rw [← List.contains_iff_mem, h] at this
+    cases this
+
+/-- a run of bytes in which `CleanPath(·, false)` has nothing to mark -/
+def Inert (m : Bytes) : Prop := expandSlashes true m = m ∧ lastSlash true m = false
+
+theorem inert_dot : Inert dot := by
+  constructor <;> decide
+
+theorem inert_seg_dotdot (x : Bytes) (hx : normalSeg x = true) : Inert (x ++ cSlash :: dotdot) := by
+  unfold normalSeg at hx
+  simp only [Bool.and_eq_true, bne_iff_ne, ne_eq, Bool.not_eq_eq_eq_not, Bool.not_true] at hx
+  constructor
+  · rw [expandSlashes_append, expandSlashes_no_slash x _ hx.2, lastSlash_no_slash x _ hx.1.1.1 hx.2]
+    rfl
+  · unfold lastSlash
+    rw [getLast?_append_cons]
+    rfl
+
+theorem cleanPathMode_insert (mode : Bool) (a b : Bytes) (ms : List Bytes) (hms : ms ≠ [])
+    (hsl : ∀ s, s ∈ ms → s.contains cSlash = false) (hn : Neutral ms) (hi : Inert (joinSep cSlash ms)) :
+    cleanPathMode mode (a ++ cSlash :: (joinSep cSlash ms ++ cSlash :: b)) = cleanPathMode mode (a ++ cSlash :: b) := by
+  unfold cleanPathMode
+  cases mode with
+  | true => simp only [if_true]; exact cleanPath_insert a b ms hms hsl hn
+  | false =>
+    simp only [Bool.false_eq_true, if_false]
+    congr 1
+    have e1 : ∀ rest : Bytes, expandSlashes false (a ++ cSlash :: rest) =
+        (expandSlashes false a ++ (if lastSlash false a then [255] else [])) ++ cSlash :: expandSlashes true rest := by
+      intro rest
+      rw [expandSlashes_append]
+      simp only [expandSlashes]
+      cases lastSlash false a <;> simp
+    rw [e1, e1, expandSlashes_append, hi.1, hi.2]
+    simp only [expandSlashes, Bool.false_eq_true, and_false, if_false]
+    have : (cSlash == cSlash) = true := by decide
+    rw [this]
+    exact cleanPath_insert _ _ ms hms hsl hn
+
+theorem lower_cons (x : UInt8) (xs : Bytes) : lower (x :: xs) = lowerByte x :: lower xs := rfl
+
 end CaddyModel.C06
